@@ -32,3 +32,7 @@ def run(check: Check, repo: Repo, tier: str) -> None:
     lt_agree.check_lt_agree(check, repo, scope=SCOPE)
     check.floor("LT-AGREE", 2, "line-splitting constructs")
     lt_agree.lexer_newline_tests(check, repo)
+    L.lexer_break_conditions(check, repo)
+    L.block_string_predicates(check, repo)
+    L.optional_truthiness(check, repo, ['language.parser', 'language.lexer'])
+    check.floor('OPTIONAL-TRUTHINESS', 1, 'tests of optional ints in parser.py')
